@@ -32,6 +32,8 @@ THEOREMS = [
     dict(name="Snow.C17.traj_table_exact", clause="trajectory table, any run length and n >= 2: row c*2m+r is (label, vial, state, t[c*s], X[r][c*s]); all sampled columns exist", strength="full"),
     dict(name="Snow.C17.traj_table_total", clause="trajectory table never raises for n >= 2 when the time vector has one entry per column; at least min(ncols, n-1) samples, the first at t[0]", strength="full"),
     dict(name="Snow.C17.fall_table_exact", clause="Snowfall table: Nrep*N*3 rows; row i*3N+j*N+v is (label v, v, key_i j, stats[i][key][v], seed i)", strength="full"),
+    dict(name="Snow.C17.table_after_run", clause="any history: after run() the table is built from that run's stats (the cached table is dropped)", strength="full"),
+    dict(name="Snow.C17.table_cached", clause="a second to_frame() returns the same table", strength="full"),
     dict(name="Snow.C17.accessors_exact", clause="accessors = values of the rows with matching group, seed and variable, in (seed, variable, vial) order, expressed in the source data", strength="full"),
     dict(name="Snow.C17.old_stride_zero_raises", clause="pre-repair code: fewer columns than n-1 -> ValueError", strength="refutation-of-old-code"),
     dict(name="Snow.C17.long_time_vector_raises", clause="a time vector longer than the state matrix (np.arange rounding) -> ValueError", strength="refutation-of-old-code"),
@@ -102,6 +104,15 @@ def _flake(case):
     obs["X"] = [[_b(x) for x in row] for row in S._X]
     obs["t"] = [_b(x) for x in S._t]
     obs["vials"] = [int(i) for i in np.where(S._storageMask)[0]]
+    if isinstance(case["store"], list) and all(isinstance(x, int) for x in case["store"]):
+        # the same run recording every vial: the recorded subset must be rows of it
+        A = Snowflake(k=dict(K), N_vials=tuple(case["nv"]), dt=dt, seed=case.get("seed", 3), opcond=_opcond(t_tot),
+                      storeStates="all")
+        A.run()
+        want = sorted(set(case["store"]))
+        obs["requested"] = want
+        obs["X_from_all"] = [[_b(x) for x in A._X[v]] for v in want] + \
+                            [[_b(x) for x in A._X[A.N_vials_total + v]] for v in want]
     try:
         sdf, tdf = S.to_frame(n_timeSteps=case["n"])
     except Exception as e:
@@ -172,9 +183,49 @@ def _fall(case):
     return obs
 
 
+def _table_obs(df):
+    return [[str(g), int(v), str(var), _b(val), int(s)]
+            for g, v, var, val, s in zip(df["group"], df["vial"], df["variable"], df["value"], df["seed"])]
+
+
+def _fallhist(case):
+    """one Snowfall object: run, export, modify (Nrep / template dt / process time), run, export ..."""
+    from ethz_snow.snowfall import Snowfall
+
+    F = Snowfall(Nrep=case["nrep"], pool_size=case["pool"], k=dict(K), N_vials=tuple(case["nv"]), dt=case["dt"],
+                 opcond=_opcond((case["ncols"] - 1) * case["dt"]))
+    obs = {"N": F.Sf_template.N_vials_total, "out": []}
+    nrep = case["nrep"]
+    for st in case["steps"]:
+        if st[0] == "run":
+            F.run(how=st[1])
+            obs["out"].append({"nrep": nrep, "statsList": [_stats_obs(F.stats[i]) for i in range(nrep)],
+                               "keys": sorted(int(i) for i in F.stats)})
+        elif st[0] == "set":
+            if st[1] == "Nrep":
+                F.Nrep = nrep = st[2]
+            elif st[1] == "dt":
+                F.Sf_template.dt = st[2]
+            elif st[1] == "t_tot":
+                F.Sf_template.opcond = _opcond(st[2])
+            obs["out"].append({})
+        else:
+            o = {}
+            try:
+                if st[0] == "table":
+                    o["rows"] = _table_obs(F.to_frame())
+                else:   # an accessor as the first consumer of the table
+                    o["values"] = [_b(x) for x in getattr(F, ACCESSORS[st[1]])()]
+                    o["rows"] = _table_obs(F.to_frame())
+            except Exception as e:
+                o = {"raise": core.exc_class(e)}
+            obs["out"].append(o)
+    return obs
+
+
 def run_impl(case):
     try:
-        o = _flake(case) if case["kind"] == "flake" else _fall(case)
+        o = {"flake": _flake, "fall": _fall, "fallhist": _fallhist}[case["kind"]](case)
         o["raise"] = None
         return o
     except Exception as e:
@@ -229,6 +280,36 @@ def compare(case, impl, model):
     if case.get("norun"):
         if impl["frame"] != {"raise": "ValueError"}:
             dis.append(f"to_frame before run: impl {impl['frame']} vs model ValueError")
+        return dis
+    if case["kind"] == "fallhist":
+        first = next((o["rows"] for o in impl["out"] if "rows" in o), [])
+        labels = _labels_from_rows(first, impl["N"])
+        steps = []
+        for st, o in zip(case["steps"], impl["out"]):
+            if st[0] == "run":
+                steps.append(["run", o["statsList"]])
+            elif st[0] != "set":
+                steps.append(["table"])
+        r = drv.call({"op": "c17_fallhist", "labels": labels, "steps": steps})
+        if "error" in r:
+            raise RuntimeError(r["error"])
+        mo = iter(r["out"])
+        for i, (st, o) in enumerate(zip(case["steps"], impl["out"])):
+            if st[0] == "set":
+                continue
+            b = next(mo)
+            if st[0] == "run":
+                if o["keys"] != list(range(o["nrep"])):
+                    dis.append(f"step {i} run: stats keys {o['keys']} != 0..{o['nrep'] - 1}")
+                continue
+            if ("raise" in o) != ("raise" in b):
+                dis.append(f"step {i} {st}: impl {o.get('raise', 'table')} vs model {b.get('raise', 'table')}")
+                continue
+            if "raise" in o:
+                continue
+            d = _diff(o["rows"], b["rows"], f"step {i} Snowfall table after {case['steps'][:i]}")
+            if d:
+                dis.append(d)
         return dis
     if case["kind"] == "flake":
         N = impl["N"]
@@ -329,6 +410,34 @@ def predicates(case, impl):
         return out
     if case.get("norun"):
         return out
+    if case["kind"] == "fallhist":
+        cur = None
+        for i, (st, o) in enumerate(zip(case["steps"], impl["out"])):
+            if st[0] == "run":
+                cur = o
+            elif st[0] != "set" and cur is not None:
+                hist = "-".join(s[0] if s[0] != "set" else f"set{s[1]}" for s in case["steps"][:i])
+                if "raise" in o:
+                    out.append(Failure(clause="fall_table_exact", key=f"fall_table_exact|Snowfall.to_frame|raises:{o['raise']}|history",
+                                       detail=f"after {case['steps'][:i]}: raises {o['raise']}"))
+                    continue
+                N, nrep = impl["N"], cur["nrep"]
+                ok = len(o["rows"]) == nrep * N * 3
+                sub = []
+                for sd in range(nrep):
+                    ok = _check_stats_rows([r for r in o["rows"] if r[4] == sd], cur["statsList"][sd], N,
+                                           "Snowfall.to_frame", sub, seed=sd) and ok
+                if "values" in o and ok:
+                    var = {"tnuc": "t_nucleation", "Tnuc": "T_nucleation", "tsol": "t_solidification"}[st[1]]
+                    want = [x for sd in range(nrep) for x in dict(cur["statsList"][sd])[var]]
+                    ok = sorted(want) == sorted(o["values"])
+                if not ok:
+                    out.append(Failure(
+                        clause="fall_table_exact", key="fall_table_exact|Snowfall.to_frame|stale-after-rerun",
+                        detail=f"after {hist}: the table/accessor ({len(o['rows'])} rows) does not describe the run the "
+                               f"object holds (Nrep={nrep}, N={N}); " + (sub[0]["detail"] if sub else "")))
+                    break
+        return out
     if case["kind"] == "flake":
         n = case["n"]
         if n < 2:
@@ -356,6 +465,11 @@ def predicates(case, impl):
                 out.append(Failure(clause="stats_table_exact", key="table_exact|Snowflake.to_frame|labels",
                                    detail=f"vial {v} carries two labels"))
                 break
+        if "X_from_all" in impl:
+            if vials != impl["requested"] or X != impl["X_from_all"]:
+                out.append(Failure(clause="traj_table_exact", key="traj_table_exact|Snowflake.run|subset-of-full-recording",
+                                   detail=f"storeStates={case['store']}: stored vials {vials} / states differ from the "
+                                          f"rows of the same run recorded with storeStates='all'"))
         tr = impl["traj_rows"]
         if m == 0:
             if tr is not None:
@@ -440,6 +554,8 @@ def classify(case, impl):
     tags = [f"kind={case['kind']}", "nv=" + "x".join(map(str, case["nv"]))]
     if case.get("norun"):
         return tags + ["before run"]
+    if case["kind"] == "fallhist":
+        return tags + ["steps=" + "-".join(s[0] if s[0] != "set" else f"set{s[1]}" for s in case["steps"])]
     if case["kind"] == "flake":
         n, nc = case["n"], case.get("ncols")
         tags.append(f"n={n}")
@@ -456,6 +572,8 @@ def classify(case, impl):
 
 
 def nontrivial(case, impl):
+    if case["kind"] == "fallhist":
+        return not impl.get("raise") and any(o.get("rows") for o in impl["out"])
     if impl.get("raise") or case.get("norun") or impl.get("frame") != "ok":
         return False
     rows = impl.get("stats_rows") or impl.get("rows") or []
@@ -469,6 +587,9 @@ SHAPES = [[1, 1, 1], [2, 1, 1], [1, 3, 1], [2, 2, 1], [3, 3, 1], [3, 2, 1], [2, 
 def _stores(rng, nv):
     N = nv[0] * nv[1] * nv[2]
     opts = ["all", None, [0], sorted(rng.sample(range(N), min(N, 2)))]
+    if N >= 3:
+        perm = rng.sample(range(N), min(N, 3))
+        opts += [sorted(perm, reverse=True), perm, [perm[0], perm[1], perm[0]], [N - 1, 0]]
     if nv[0] >= 2 and nv[1] >= 2:
         opts += ["corner", "edge", "uniform_2", ["corner", "core"]]
     return opts
@@ -516,6 +637,7 @@ def cases(rng, tier):
     yield dict(kind="flake", nv=[2, 2, 1], store=None, ncols=5, n=1, dt=1, seed=1)
     yield dict(kind="flake", nv=[2, 2, 1], store="all", ncols=5, n=3, dt=1, norun=True)
     yield dict(kind="fall", nv=[2, 2, 1], nrep=2, pool=1, ncols=5, dt=1, how="sequential", queries=[], norun=True)
+    yield from _fallhists(rng, quick)
     # Snowfall tables and accessors
     for nrep in (1, 2, 5):
         for how in ("sequential", "async", "sync"):
@@ -523,6 +645,23 @@ def cases(rng, tier):
                 nv = rng.choice([[2, 2, 1], [3, 3, 1], [1, 3, 1], [3, 2, 1], [2, 2, 2], [1, 1, 1]])
                 yield dict(kind="fall", nv=nv, nrep=nrep, pool=rng.choice([1, 2, 3]), ncols=rng.choice([3, 60, 120]),
                            dt=1, how=how, queries=_queries(rng, nrep, 6 if quick else 12))
+
+
+def _fallhists(rng, quick):
+    T = ["table"]
+    for how in ("sequential", "async", "sync"):
+        for mod in (["set", "Nrep", 4], ["set", "Nrep", 1], ["set", "dt", 0.5], ["set", "t_tot", 40.0]):
+            if quick and how == "sync" and mod[1] != "Nrep":
+                continue
+            first = rng.choice([T, ["accessor", rng.choice(["tnuc", "Tnuc", "tsol"])]])
+            yield dict(kind="fallhist", nv=rng.choice([[2, 2, 1], [3, 3, 1], [1, 3, 1]]), nrep=2, pool=rng.choice([1, 2]),
+                       ncols=rng.choice([30, 60]), dt=1,
+                       steps=[["run", how], first, mod, ["run", how], T, T])
+    # re-run without modification, table asked twice, export only at the end
+    yield dict(kind="fallhist", nv=[2, 2, 1], nrep=3, pool=2, ncols=40, dt=1,
+               steps=[["run", "sequential"], T, ["run", "async"], T, ["set", "Nrep", 2], ["run", "sequential"], T])
+    yield dict(kind="fallhist", nv=[2, 2, 1], nrep=2, pool=2, ncols=40, dt=1,
+               steps=[["run", "async"], ["set", "Nrep", 5], ["run", "async"], T, T])
 
 
 def widen(rng, tier):
